@@ -7,9 +7,12 @@ import (
 	"os"
 	"os/exec"
 	"path/filepath"
+	"regexp"
 	"runtime"
+	"runtime/debug"
 	"sort"
 	"strings"
+	"sync"
 	"time"
 
 	"github.com/anishathalye/porcupine"
@@ -37,19 +40,22 @@ type c08Viol struct {
 }
 
 type c08Result struct {
-	Schedules      int            `json:"schedules"`
-	Points         int            `json:"points"`
-	BoundCompleted int            `json:"bound_completed"`
-	Exhaustive     bool           `json:"exhaustive"`
-	Preempted      int            `json:"schedules_with_preemption"`
-	Outcomes       map[string]int `json:"outcomes"`
-	Violations     []c08Viol      `json:"violations"`
-	HarnessError   string         `json:"harness_error,omitempty"`
-	MaxThreads     int            `json:"max_threads"`
+	Schedules      int               `json:"schedules"`
+	Points         int               `json:"points"`
+	BoundCompleted int               `json:"bound_completed"`
+	Exhaustive     bool              `json:"exhaustive"`
+	Preempted      int               `json:"schedules_with_preemption"`
+	Outcomes       map[string]int    `json:"outcomes"`
+	Violations     []c08Viol         `json:"violations"`
+	Info           map[string]int    `json:"info,omitempty"` // informational scenarios: signature -> schedules showing it
+	InfoExample    map[string]string `json:"info_example,omitempty"`
+	HarnessError   string            `json:"harness_error,omitempty"`
+	MaxThreads     int               `json:"max_threads"`
 }
 
-// c08Check judges one execution.
-func c08Check(e *c08Env, x *vsync.Execution, scen string) (sigs []string, msgs []string, outcome string) {
+// c08Check judges one execution. free = the bodies ran on real goroutines (the -race
+// complement): there is no schedule, timestamps come from a global atomic counter.
+func c08Check(e *c08Env, x *vsync.Execution, scen string, free bool) (sigs []string, msgs []string, outcome string) {
 	add := func(sig, f string, a ...any) {
 		sigs = append(sigs, sig)
 		msgs = append(msgs, fmt.Sprintf(f, a...))
@@ -66,46 +72,53 @@ func c08Check(e *c08Env, x *vsync.Execution, scen string) (sigs []string, msgs [
 	if x.Deadlock || len(x.Panics) > 0 {
 		return sigs, msgs, "aborted"
 	}
+	cfg := e.cfg
 	// linearizability of the call/return history w.r.t. the set model
-	model := c08PorcupineModel(e.whole)
-	init := c08State{}
-	var initKeys []string
-	for k, t := range e.hist.putRet {
-		if t == 0 {
-			initKeys = append(initKeys, c08KeyOf(k, e.whole))
+	init := c08State{ro: e.preRO}
+	for _, k := range e.pre {
+		if cfg.class(k) == c08Normal {
+			init = c08StateAdd(init, c08KeyOf(k, cfg.whole))
 		}
 	}
-	sort.Strings(initKeys)
-	init.keys = strings.Join(initKeys, ",")
-	model.Init = func() interface{} { return init }
-	if !porcupine.CheckOperations(model, e.hist.ops) {
+	model := c08PorcupineModel(cfg, init)
+	linOK := true
+	if free {
+		// many goroutines: bounded effort, an undecided history is not a verdict
+		switch porcupine.CheckOperationsTimeout(model, e.hist.ops, 2*time.Second) {
+		case porcupine.Illegal:
+			linOK = false
+		case porcupine.Unknown:
+			outcome = "lin-undecided"
+		}
+	} else {
+		linOK = porcupine.CheckOperations(model, e.hist.ops)
+	}
+	if !linOK {
 		var sb strings.Builder
 		for _, op := range e.hist.ops {
 			fmt.Fprintf(&sb, "[c%d %d-%d %+v -> %+v] ", op.ClientId, op.Call, op.Return, op.Input, op.Output)
 		}
-		add("c08:not-linearizable:"+scen, "history is not linearizable w.r.t. the set model: %s", sb.String())
+		add("c08:not-linearizable:"+scen, "history is not linearizable w.r.t. the set model (initial state %+v): %s", init, sb.String())
 	}
-	// listing oracle (weaker than an atomic snapshot on purpose)
-	everPut := map[string]bool{}
-	for k := range e.hist.putRet {
-		everPut[c08KeyOf(k, e.whole)] = true
+	// listing oracle (weaker than an atomic snapshot on purpose): nothing that was never put,
+	// nothing more often than stored, and - for every listing whose AllKeysChan call succeeded
+	// and that was not cancelled - every key whose Put had returned before the call. Whether
+	// the call itself may fail is part of the history above (op "keys").
+	attempts := map[string]int{}
+	for _, k := range e.pre {
+		if cfg.class(k) == c08Normal {
+			attempts[c08KeyOf(k, cfg.whole)]++
+		}
 	}
 	for _, op := range e.hist.ops {
 		in := op.Input.(c08In)
 		if in.Op == "put" || in.Op == "putmany" {
 			for _, k := range in.Keys {
-				everPut[c08KeyOf(k, e.whole)] = true
+				if cfg.class(k) == c08Normal {
+					attempts[c08KeyOf(k, cfg.whole)]++
+				}
 			}
 		}
-	}
-	closedBefore := func(ts int64) bool {
-		for _, op := range e.hist.ops {
-			in := op.Input.(c08In)
-			if (in.Op == "finalize" || in.Op == "discard" || in.Op == "close") && op.Call < ts {
-				return true
-			}
-		}
-		return false
 	}
 	for _, l := range e.hist.listings {
 		if l.err {
@@ -113,23 +126,27 @@ func c08Check(e *c08Env, x *vsync.Execution, scen string) (sigs []string, msgs [
 		}
 		seen := map[string]int{}
 		for _, k := range l.keys {
-			kk := c08KeyOf(k, e.whole)
+			if strings.HasPrefix(k, "?") {
+				add("c08:listing-phantom:"+scen, "AllKeysChan yielded %s which was never put", k)
+				continue
+			}
+			kk := c08KeyOf(k, cfg.whole)
 			seen[kk]++
-			if !everPut[kk] {
+			if attempts[kk] == 0 {
 				add("c08:listing-phantom:"+scen, "AllKeysChan yielded %s which was never put", k)
 			}
 		}
-		if e.dedup {
-			for k, n := range seen {
-				if n > 1 {
-					add("c08:listing-duplicate:"+scen, "AllKeysChan yielded key %s %d times with de-duplication on", k, n)
-				}
+		for k, n := range seen {
+			if cfg.dedup && n > 1 {
+				add("c08:listing-duplicate:"+scen, "AllKeysChan yielded key %s %d times with de-duplication on", k, n)
+			} else if n > attempts[k] && attempts[k] > 0 {
+				add("c08:listing-duplicate:"+scen, "AllKeysChan yielded key %s %d times but it was put only %d times", k, n, attempts[k])
 			}
 		}
-		if !l.cancelled && !closedBefore(l.ret) {
+		if !l.cancelled {
 			for k, t := range e.hist.putRet {
-				if t < l.call && seen[c08KeyOf(k, e.whole)] == 0 {
-					add("c08:listing-missing:"+scen, "AllKeysChan (call at %d) lacks %s whose Put had returned at %d", l.call, k, t)
+				if cfg.class(k) == c08Normal && t < l.call && seen[c08KeyOf(k, cfg.whole)] == 0 {
+					add("c08:listing-missing:"+scen, "AllKeysChan (call at %d, returned a channel at %d, drained at %d) lacks %s whose Put had returned at %d", l.call, l.got, l.ret, k, t)
 				}
 			}
 		}
@@ -138,40 +155,28 @@ func c08Check(e *c08Env, x *vsync.Execution, scen string) (sigs []string, msgs [
 	file, err := e.final()
 	if err != nil {
 		add("c08:final-finalize-error:"+scen, "finalizing after the scenario failed: %v", err)
-	} else if file != nil {
-		discarded := false
+	} else if !e.noFile {
+		discarded, finalized := false, false
 		for _, op := range e.hist.ops {
-			if op.Input.(c08In).Op == "discard" {
+			switch op.Input.(c08In).Op {
+			case "discard":
 				discarded = true
-			}
-		}
-		if !discarded {
-			fl, err := refcar.DecodeFile(file, false)
-			if err != nil {
-				add("c08:final-malformed:"+scen, "final file is not well-formed: %v", err)
-			} else {
-				cnt := map[string]int{}
-				for _, s := range fl.Payload.Sections {
-					cnt[string(multihashBytes(s.Cid))]++
-				}
-				okPuts := map[string]bool{}
-				for k := range e.hist.putRet {
-					okPuts[k] = true
-				}
-				for k := range okPuts {
-					mh := string(multihashBytes(kit.B(k).Raw))
-					if cnt[mh] == 0 {
-						add("c08:final-missing:"+scen, "final file lacks block %s whose Put returned success", k)
-					}
-					if e.dedup && !e.whole && cnt[mh] > 1 {
-						add("c08:final-duplicate:"+scen, "final file holds block %s %d times with de-duplication on", k, cnt[mh])
-					}
-				}
-				if !bytes.HasPrefix(file, refcar.Pragma) && len(file) > 0 && false {
-					add("c08:final-version:"+scen, "unexpected version")
+			case "finalize":
+				if !op.Output.(c08Out).Err {
+					finalized = true
 				}
 			}
 		}
+		// after a Discard the file is only complete if a Finalize reported success
+		if !discarded || finalized {
+			c08CheckFile(e, file, scen, add)
+		}
+	}
+	if e.extra != nil {
+		e.extra(add)
+	}
+	if outcome != "" {
+		return sigs, msgs, outcome
 	}
 	// outcome class = the observable results (for vacuity detection)
 	var sb strings.Builder
@@ -183,6 +188,109 @@ func c08Check(e *c08Env, x *vsync.Execution, scen string) (sigs []string, msgs [
 		fmt.Fprintf(&sb, "keys%v/%v;", l.keys, l.err)
 	}
 	return sigs, msgs, sb.String()
+}
+
+// c08CheckFile judges the output of a finished session: strict decode, version, roots, the
+// section multiset against the puts of the history, and the index against the payload.
+func c08CheckFile(e *c08Env, file []byte, scen string, add func(sig, f string, a ...any)) {
+	cfg := e.cfg
+	// expected number of sections per key: [lo, hi]
+	lo, hi := map[string]int{}, map[string]int{}
+	written := map[string]bool{} // block names a put may legitimately have written
+	stored := func(n string, certain bool) {
+		if cfg.class(n) != c08Normal {
+			return
+		}
+		written[n] = true
+		k := c08KeyOf(n, cfg.whole)
+		if cfg.dedup {
+			if certain {
+				lo[k] = 1
+			}
+			hi[k] = 1
+			return
+		}
+		if certain {
+			lo[k]++
+		}
+		hi[k]++
+	}
+	for _, n := range e.pre {
+		stored(n, true)
+	}
+	for _, op := range e.hist.ops {
+		in := op.Input.(c08In)
+		if in.Op != "put" && in.Op != "putmany" {
+			continue
+		}
+		if !op.Output.(c08Out).Err {
+			for _, n := range in.Keys {
+				stored(n, true)
+			}
+			continue
+		}
+		// a failed batch may have stored the blocks before the one that was refused
+		for _, n := range in.Keys {
+			if cfg.class(n) == c08TooLarge {
+				break
+			}
+			if in.Op == "putmany" {
+				stored(n, false)
+			}
+		}
+	}
+	if file == nil {
+		for k, n := range lo {
+			if n > 0 {
+				add("c08:final-missing:"+scen, "there is no output at all, but the Put of %s returned success", k)
+			}
+		}
+		return
+	}
+	fl, err := refcar.DecodeFile(file, false)
+	if err != nil {
+		add("c08:final-malformed:"+scen, "final file is not well-formed: %v (%d bytes: %x)", err, len(file), clip(file))
+		return
+	}
+	wantVer := 2
+	if cfg.v1 {
+		wantVer = 1
+	}
+	if fl.Version != wantVer {
+		add("c08:final-version:"+scen, "final file is a CARv%d, expected a CARv%d", fl.Version, wantVer)
+	}
+	if h := fl.Payload.Header; len(h.Roots) != 1 || !bytes.Equal(h.Roots[0], kit.B("a").Raw) {
+		add("c08:final-roots:"+scen, "final file has roots %x, the store was created with [%x]", h.Roots, kit.B("a").Raw)
+	}
+	cnt := map[string]int{}
+	for _, s := range fl.Payload.Sections {
+		n := c08NameOfRaw(s.Cid)
+		if n == "" || !written[n] {
+			add("c08:final-extra:"+scen, "final file holds a section with CID %x (%s) that no successful Put wrote", s.Cid, n)
+			continue
+		}
+		if !bytes.Equal(s.Data, kit.B(n).Data) {
+			add("c08:final-extra:"+scen, "final file holds block %s with data %x", n, clip(s.Data))
+		}
+		cnt[c08KeyOf(n, cfg.whole)]++
+	}
+	for k := range hi {
+		switch {
+		case cnt[k] < lo[k]:
+			add("c08:final-missing:"+scen, "final file holds block %s %d times; Puts that returned success require %d", k, cnt[k], lo[k])
+		case cnt[k] > hi[k] && cfg.dedup:
+			add("c08:final-duplicate:"+scen, "final file holds block %s %d times with de-duplication on", k, cnt[k])
+		case cnt[k] > hi[k]:
+			add("c08:final-extra:"+scen, "final file holds block %s %d times but only %d Puts can have written it", k, cnt[k], hi[k])
+		}
+	}
+	if fl.Version == 2 {
+		if !fl.HasIndex {
+			add("c08:final-index:"+scen, "finalized CARv2 has no index")
+		} else if got, want := recMultiset(fl.IndexCodec, fl.Index), recMultiset(fl.IndexCodec, refcar.RecordsOf(fl.Payload, cfg.storeID)); got != want {
+			add("c08:final-index:"+scen, "index does not resolve exactly the sections of the payload: got {%s} want {%s}", got, want)
+		}
+	}
 }
 
 func c08PanicSite(p string) string {
@@ -206,7 +314,7 @@ func c08RunOne(sc *c08Scenario, o drv.Opts, dir string, prefix []int) (*vsync.Ex
 	if x.Diverged != "" {
 		return x, nil, nil, ""
 	}
-	sigs, msgs, outcome := c08Check(e, x, sc.Name)
+	sigs, msgs, outcome := c08Check(e, x, sc.Name, false)
 	return x, sigs, msgs, outcome
 }
 
@@ -241,6 +349,24 @@ func C08ExploreMain(arg string) int {
 	res := &c08Result{Outcomes: map[string]int{}, Exhaustive: true}
 	seenSig := map[string]bool{}
 	record := func(x *vsync.Execution, sigs, msgs []string) {
+		if sc.Info {
+			// outside the property statement: counted, never a violation
+			if res.Info == nil {
+				res.Info, res.InfoExample = map[string]int{}, map[string]string{}
+			}
+			once := map[string]bool{}
+			for i, s := range sigs {
+				if !once[s] {
+					once[s] = true
+					res.Info[s]++
+				}
+				if !seenSig[s] {
+					seenSig[s] = true
+					res.InfoExample[s] = fmt.Sprintf("%s (schedule %v)", clipS(msgs[i], 600), x.Choices)
+				}
+			}
+			return
+		}
 		for i, s := range sigs {
 			if !seenSig[s] {
 				seenSig[s] = true
@@ -278,6 +404,9 @@ func C08ExploreMain(arg string) int {
 		// each bound re-explores the smaller ones; counts are those of the last bound
 		res.Schedules, res.Points, res.Preempted = 0, 0, 0
 		res.Outcomes = map[string]int{}
+		if res.Info != nil {
+			res.Info = map[string]int{}
+		}
 		stop := false
 		var explore func(prefix []int)
 		explore = func(prefix []int) {
@@ -344,11 +473,39 @@ var c08RaceBin = filepath.Join(kit.VerifDir, "bin", "worker-c08race")
 func c08Setup(tier string) error {
 	env := append(os.Environ(), "GOFLAGS=-mod=mod", "GOPROXY=off", "GOSUMDB=off", "GOTOOLCHAIN=local")
 	// 1. regenerate the sync-rewrite overlay from /repo's current sources
-	gen := exec.Command("go", "run", "./cmd/vrewrite", "-out", filepath.Join(kit.VerifDir, "bin", "c08overlay"))
+	genArgs := []string{"run", "./cmd/vrewrite", "-out", filepath.Join(kit.VerifDir, "bin", "c08overlay")}
+	// development only (tools/seedtest_ovl.sh): explore a patched copy of the tree without touching /repo
+	devOverlay, devSrc := os.Getenv("VCHECK_OVERLAY"), os.Getenv("VCHECK_SRC_V2")
+	if devSrc != "" {
+		genArgs = append(genArgs, "-src", devSrc)
+	}
+	gen := exec.Command("go", genArgs...)
 	gen.Dir = filepath.Join(kit.VerifDir, "engine")
 	gen.Env = append(env, "CGO_ENABLED=0")
 	if out, err := gen.CombinedOutput(); err != nil {
 		return fmt.Errorf("vrewrite failed (cannot place scheduler hooks in the current sources): %v\n%s", err, out)
+	}
+	raceOverlay := filepath.Join(kit.VerifDir, "engine", "overlay.json")
+	if devOverlay != "" {
+		// files the patch replaces but vrewrite does not rewrite must reach the explorer build too
+		type ov struct{ Replace map[string]string }
+		var gen, dev ov
+		gp := filepath.Join(kit.VerifDir, "bin", "c08overlay", "overlay.json")
+		gb, _ := os.ReadFile(gp)
+		db, _ := os.ReadFile(devOverlay)
+		if json.Unmarshal(gb, &gen) != nil || json.Unmarshal(db, &dev) != nil {
+			return fmt.Errorf("cannot merge VCHECK_OVERLAY into the explorer overlay")
+		}
+		for k, v := range dev.Replace {
+			if _, ok := gen.Replace[k]; !ok {
+				gen.Replace[k] = v
+			}
+		}
+		mb, _ := json.Marshal(gen)
+		if err := os.WriteFile(gp, mb, 0o644); err != nil {
+			return err
+		}
+		raceOverlay = devOverlay
 	}
 	// 2. explorer binary: real code on the shim
 	b := exec.Command("go", "build", "-tags", "verif", "-overlay", filepath.Join(kit.VerifDir, "bin", "c08overlay", "overlay.json"), "-o", c08Bin, "./cmd/worker")
@@ -358,7 +515,7 @@ func c08Setup(tier string) error {
 		return fmt.Errorf("building the explorer failed: %v\n%s", err, out)
 	}
 	// 3. -race complement binary: real sync, same scenario bodies
-	r := exec.Command("go", "build", "-race", "-tags", "verif", "-overlay", filepath.Join(kit.VerifDir, "engine", "overlay.json"), "-o", c08RaceBin, "./cmd/worker")
+	r := exec.Command("go", "build", "-race", "-tags", "verif", "-overlay", raceOverlay, "-o", c08RaceBin, "./cmd/worker")
 	r.Dir = filepath.Join(kit.VerifDir, "engine")
 	r.Env = append(env, "CGO_ENABLED=1")
 	if out, err := r.CombinedOutput(); err != nil {
@@ -406,6 +563,11 @@ func runC08(c any, x *kit.Ctx) {
 		x.Outcome(cs.Scenario + ":" + o)
 		x.Nontrivial(fmt.Sprintf("%s|%+v|%s", cs.Scenario, cs.Opts, o))
 	}
+	for sig, n := range res.Info {
+		// informational scenario (outside the property statement): reported, never a violation
+		x.Count("informational_schedules:"+sig, n)
+		x.Note(fmt.Sprintf("informational %s %+v %s", cs.Scenario, cs.Opts, sig), map[string]any{"schedules_showing_it": n, "of": res.Schedules, "example": res.InfoExample[sig]})
+	}
 	for _, v := range res.Violations {
 		rc := cs
 		rc.Schedule = v.Schedule
@@ -420,6 +582,10 @@ func clipS(s string, n int) string {
 	return s
 }
 
+// c08FreeSig is the signature prefix of everything the free-running complement reports (it is
+// the kit's SamplingSigPrefix: such findings need not reproduce on every re-execution).
+const c08FreeSig = "c08:race-detector:"
+
 // c08RunRace runs the scenario bodies free-running under the race detector.
 func c08RunRace(cs C08Case, x *kit.Ctx, arg string) {
 	cmd := exec.Command(c08RaceBin, "C08-race", arg)
@@ -431,10 +597,32 @@ func c08RunRace(cs C08Case, x *kit.Ctx, arg string) {
 		x.Fail("c08:harness:race-run-crashed:"+cs.Scenario, "race complement failed: %v\n%s", err, clipS(stderr.String(), 3000))
 		return
 	}
-	n := 0
-	fmt.Sscanf(strings.TrimSpace(string(out)), "runs=%d", &n)
-	x.Count("race_pass_runs", n)
+	var res c08FreeResult
+	if err := json.Unmarshal(bytes.TrimSpace(out), &res); err != nil {
+		x.Fail("c08:harness:bad-output:"+cs.Scenario, "cannot parse the output of the race complement: %v: %s", err, clipS(string(out), 500))
+		return
+	}
+	x.Count("race_pass_runs", res.Runs)
+	x.Count("race_pass_histories_undecided", res.Undecided)
+	if res.Slow != "" {
+		x.Note("race complement slow "+cs.Scenario, res.Slow)
+	}
 	x.Eval(1)
+	info := false
+	if sc := c08FindScenario(cs.Scenario); sc != nil && sc.Info {
+		info = true // outside the property statement: reported, never a violation
+	}
+	fail := func(sig, f string, a ...any) {
+		if info {
+			x.Count("informational_free_runs:"+sig, 1)
+			x.Note("informational (free-running) "+cs.Scenario+" "+sig, clipS(fmt.Sprintf(f, a...), 1500))
+			return
+		}
+		x.Fail(sig, f, a...)
+	}
+	for _, v := range res.Violations {
+		fail(c08FreeSig+"free-run:"+strings.TrimPrefix(v.Sig, "c08:"), "free-running complement of %s %+v: %s", cs.Scenario, cs.Opts, clipS(v.Msg, 4000))
+	}
 	// one signature per distinct pair of go-car frames
 	reports := strings.Split(stderr.String(), "WARNING: DATA RACE")
 	for _, rep := range reports[1:] {
@@ -467,17 +655,104 @@ func c08RunRace(cs C08Case, x *kit.Ctx, arg string) {
 			continue
 		}
 		sort.Strings(frames)
-		x.Fail("c08:race-detector:"+strings.Join(frames, "||"), "Go race detector report in the free-running complement of %s:\n%s", cs.Scenario, clipS(rep, 2500))
+		fail(c08FreeSig+strings.Join(frames, "||"), "Go race detector report in the free-running complement of %s:\n%s", cs.Scenario, clipS(rep, 2500))
 	}
 }
 
-// C08RaceMain runs scenario bodies on real goroutines repeatedly (sampling; complement only).
+type c08FreeResult struct {
+	Runs       int       `json:"runs"`
+	Undecided  int       `json:"undecided"`
+	Violations []c08Viol `json:"violations"`
+	Slow       string    `json:"slow,omitempty"`
+}
+
+// c08HangTimeout is NOT a performance oracle: a run takes microseconds; after this long the
+// goroutine dump decides (every unfinished body blocked on a lock or channel = hang).
+const c08HangTimeout = 60 * time.Second
+
+var c08BlockedState = regexp.MustCompile(`^goroutine \d+ \[(semacquire|sync\.[A-Za-z.]+|chan send|chan receive|select)(, [^\]]*)?\]:`)
+
+// c08Hung inspects a dump of all goroutines: it reports (true, dump) when there are unfinished
+// scenario bodies and every one of them is blocked on a lock or a channel.
+func c08Hung() (bool, string) {
+	buf := make([]byte, 1<<20)
+	buf = buf[:runtime.Stack(buf, true)]
+	bodies, blocked := 0, 0
+	var sb strings.Builder
+	for _, g := range strings.Split(string(buf), "\n\n") {
+		if !strings.Contains(g, "props.c08FreeRun.func") {
+			continue
+		}
+		bodies++
+		if c08BlockedState.MatchString(g) {
+			blocked++
+		}
+		sb.WriteString(g + "\n\n")
+	}
+	return bodies > 0 && bodies == blocked, sb.String()
+}
+
+// c08FreeRun runs every body `copies` times on real goroutines sharing the instance.
+// It returns the panics, and hung=true when the bodies are deadlocked.
+func c08FreeRun(e *c08Env, copies int) (panics []string, hung bool, slow string) {
+	var mu sync.Mutex
+	total := copies * len(e.bodies)
+	done := make(chan struct{}, total)
+	for k := 0; k < copies; k++ {
+		for _, b := range e.bodies {
+			b := b
+			go func() {
+				defer func() {
+					if r := recover(); r != nil {
+						mu.Lock()
+						panics = append(panics, fmt.Sprintf("%v\n%s", r, debug.Stack()))
+						mu.Unlock()
+					}
+					done <- struct{}{}
+				}()
+				b()
+			}()
+		}
+	}
+	for i := 0; i < total; i++ {
+		waited := 0
+	wait:
+		for {
+			select {
+			case <-done:
+				break wait
+			case <-time.After(c08HangTimeout):
+				waited++
+				h, dump := c08Hung()
+				if h {
+					mu.Lock()
+					defer mu.Unlock()
+					return append(panics, "HANG\n"+dump), true, ""
+				}
+				if waited >= 5 {
+					return nil, false, fmt.Sprintf("bodies still running after %v without being blocked (machine overloaded?):\n%s", time.Duration(waited)*c08HangTimeout, clipS(dump, 3000))
+				}
+			}
+		}
+	}
+	mu.Lock()
+	defer mu.Unlock()
+	return panics, false, ""
+}
+
+// C08RaceMain runs scenario bodies on real goroutines repeatedly (sampling; complement only):
+// the race detector watches, and every run is judged by the same oracles as an explored
+// schedule (panic, hang, linearizability with a bounded search, listing, final file).
 func C08RaceMain(arg string) int {
 	var cs C08Case
 	if err := json.Unmarshal([]byte(arg), &cs); err != nil {
 		return 2
 	}
 	sc := c08FindScenario(cs.Scenario)
+	if sc == nil {
+		fmt.Fprintln(os.Stderr, "unknown scenario", cs.Scenario)
+		return 2
+	}
 	dir, err := os.MkdirTemp("/dev/shm", "c08r")
 	if err != nil {
 		dir, _ = os.MkdirTemp("", "c08r")
@@ -487,59 +762,107 @@ func C08RaceMain(arg string) int {
 	if runs == 0 {
 		runs = 200
 	}
+	res := c08FreeResult{}
+	seen := map[string]bool{}
 	deadline := time.Now().Add(20 * time.Second)
-	n := 0
-	for ; n < runs && time.Now().Before(deadline); n++ {
+	for ; res.Runs < runs && time.Now().Before(deadline); res.Runs++ {
 		e := sc.New(dir, cs.Opts)
-		done := make(chan struct{}, len(e.bodies)*4)
 		// 2..16 goroutines: every body is started several times on the shared instance
-		copies := 1 + n%4
-		total := 0
-		for k := 0; k < copies; k++ {
-			for _, b := range e.bodies {
-				total++
-				b := b
-				go func() {
-					defer func() { recover(); done <- struct{}{} }()
-					b()
-				}()
-			}
+		copies := 1 + res.Runs%4
+		panics, hung, slow := c08FreeRun(e, copies)
+		if slow != "" {
+			res.Slow = slow
+			break
 		}
-		for i := 0; i < total; i++ {
-			select {
-			case <-done:
-			case <-time.After(30 * time.Second):
-				fmt.Fprintln(os.Stderr, "race complement: scenario did not finish (not an oracle)")
-				i = total
+		if hung {
+			res.Violations = append(res.Violations, c08Viol{Sig: "c08:hang:" + sc.Name, Msg: fmt.Sprintf("with %d goroutines on one instance every unfinished goroutine is blocked on a lock or channel after %v:\n%s", copies*len(e.bodies), c08HangTimeout, strings.Join(panics, "\n"))})
+			res.Runs++
+			break // the blocked goroutines (and the locks they hold) cannot be cleaned up
+		}
+		sigs, msgs, outcome := c08Check(e, &vsync.Execution{Panics: panics}, sc.Name, true)
+		if outcome == "lin-undecided" {
+			res.Undecided++
+		}
+		for i, s := range sigs {
+			if !seen[s] {
+				seen[s] = true
+				res.Violations = append(res.Violations, c08Viol{Sig: s, Msg: fmt.Sprintf("(%d goroutines) %s", copies*len(e.bodies), msgs[i])})
 			}
 		}
 		e.cleanup()
 		runtime.Gosched()
 	}
-	fmt.Printf("runs=%d\n", n)
+	b, _ := json.Marshal(res)
+	fmt.Println(string(b))
 	return 0
 }
 
 func genC08(tier string, emit func(any)) {
-	cfgs := []drv.Opts{{}, {AllowDup: true}, {Whole: true}}
 	bound := 2
 	budget := 250000
+	raceRuns := 150
 	if tier == "thorough" {
 		bound = 6
 		budget = 1500000
+		raceRuns = 400
 	}
+	type job struct {
+		c    C08Case
+		cost int
+	}
+	var jobs []job
 	for _, sc := range c08Scenarios {
-		for _, o := range cfgs {
-			if (sc.Name == "S8" || sc.Name == "S7") && o.AllowDup {
-				continue
+		opts := c08DefaultOpts
+		if sc.Opts != nil {
+			opts = sc.Opts
+		}
+		for _, o := range opts(tier) {
+			b := budget
+			if tier == "thorough" && sc.Name != "S9" {
+				// the execution cap of the new scenarios is lower (CPU budget); S9 keeps the original cap
+				b = 400000
+				if sc.Name == "S31" {
+					b = 250000
+				}
+				if sc.Name == "S32" {
+					b = 120000 // bound 2 complete; bound 3 exceeds any affordable cap
+				}
+				if sc.Info {
+					b = 50000
+				}
 			}
-			emit(C08Case{Scenario: sc.Name, Opts: o, Bound: bound, Budget: budget})
+			jobs = append(jobs, job{C08Case{Scenario: sc.Name, Opts: o, Bound: bound, Budget: b}, c08Cost[sc.Name]})
 		}
 	}
+	// the longest explorations first (the cases run on a pool of workers)
+	sort.SliceStable(jobs, func(i, j int) bool { return jobs[i].cost > jobs[j].cost })
+	for _, j := range jobs {
+		emit(j.c)
+	}
+	// free-running -race complement: every scenario inside the statement x a reduced
+	// configuration matrix (quick: first two configurations; thorough: all of them)
 	for _, sc := range c08Scenarios {
-		emit(C08Case{Scenario: sc.Name, Opts: drv.Opts{}, Race: true, Budget: 150})
+		if sc.NoRace {
+			continue
+		}
+		opts := c08DefaultOpts
+		if sc.Opts != nil {
+			opts = sc.Opts
+		}
+		l := opts(tier)
+		if tier != "thorough" && sc.Opts == nil {
+			l = []drv.Opts{{}, {AllowDup: true}, {V1: true}}
+		} else if tier != "thorough" && len(l) > 2 {
+			l = l[:2]
+		}
+		for _, o := range l {
+			emit(C08Case{Scenario: sc.Name, Opts: o, Race: true, Budget: raceRuns})
+		}
 	}
 }
+
+// c08Cost orders the explorer cases (rough relative number of schedules at bound 2).
+var c08Cost = map[string]int{"S9": 100, "S5": 20, "S21": 15, "S32": 15, "S8": 10, "S31": 10, "S2": 8, "S12": 8, "S6": 8, "S7": 8, "S11": 5}
 
 func init() {
 	kit.Register(&kit.Prop{
@@ -547,18 +870,22 @@ func init() {
 		Gen:               genC08,
 		Run:               runC08,
 		Setup:             c08Setup,
-		SamplingSigPrefix: "c08:race-detector:",
+		SamplingSigPrefix: c08FreeSig,
 		Decode:            kit.DecodeAs[C08Case],
-		Rule: "stateless exploration of thread interleavings of the REAL blockstore/storage/deferred code under a controlled scheduler: the current sources are mechanically rewritten (sync -> shim, go -> scheduler threads, select -> modelled channel operation, accesses of index/writer objects -> happens-before hooks); " +
-			"every schedule of 15 scenarios (3-4 threads, 1-2 calls each, colliding keys, listing concurrent with puts, finalize/discard concurrent with readers) x 3 de-dup configurations is enumerated depth-first with iterative pre-emption bounding (0,1,2; thorough up to 6 or the execution cap, whichever comes first, the completed bound is reported per scenario); per schedule: no panic, no deadlock, vector-clock race check, porcupine linearizability w.r.t. the set model, listing oracle, strict decode of the final file; " +
-			"states = schedules executed; non-trivial = distinct (scenario, configuration, observable outcome); a free-running -race pass of the same bodies is reported separately (race_pass_runs) and is sampling, not the deciding step",
+		Rule: "stateless exploration of thread interleavings of the REAL blockstore/storage/deferred code under a controlled scheduler: the current sources are mechanically rewritten (sync -> shim, go -> scheduler threads, select -> modelled channel operation, accesses of index/writer objects -> happens-before hooks; every other non-test file of the go-car v2 module is scanned and the rewrite refuses goroutines, channels, select, sync and sync/atomic outside the rewritten files); " +
+			"every schedule of 32 scenarios (2-4 threads, 1-3 calls each with a scheduling point between the calls of a thread; colliding keys a/a', 3-4 concurrent writers, batches, listing concurrent with puts, finalize/discard/close concurrent with readers and with each other, identity CIDs with StoreIdentityCIDs on/off, a batch refused by MaxIndexCidSize) over every writable front end (blockstore OpenReadWrite new / resumed / OpenReadWriteFile, storage NewReadableWritable / OpenReadableWritable resumed / NewWritable over a plain io.Writer, deferred writer for a path / for a stream) plus read-only views (NewReadOnly, OpenReadOnly with mmap) x the configuration matrix {dedup, AllowDuplicatePuts, UseWholeCIDs, WriteAsCarV1} (4 single-option configurations; thorough: +3 option pairs for the 8 scenarios with colliding puts; stream front ends: the CARv1 ones; identity scenarios: StoreIdentityCIDs x {dup, v1, whole}) is enumerated depth-first with iterative pre-emption bounding (0,1,2; thorough up to 6 or the execution cap, whichever comes first, the completed bound is reported per scenario); " +
+			"per schedule: no panic, no deadlock, vector-clock race check, porcupine linearizability w.r.t. a nondeterministic set model that includes the AllKeysChan call itself (error only if closed), Roots content, not-found errors and the lifecycle; listing oracle (nothing never put, nothing more often than put, and every successful uncancelled listing holds every key whose Put returned before the call, whatever is closed meanwhile); final output: strict decode, version = WriteAsCarV1, roots, section multiset = exactly the successful puts (one per distinct key with de-duplication - by whole CID when UseWholeCIDs -, one per successful put with AllowDuplicatePuts, no section of a put that returned an error), index records = records derived from the payload; " +
+			"2 informational scenarios outside the statement (consumer of ReadOnly.AllKeysChan calling Get while Close is pending; DeferredCarWriter.OnPut concurrent with Put) are reported as counts, never as violations; " +
+			"states = schedules executed; non-trivial = distinct (scenario, configuration, observable outcome); a free-running -race pass of the same bodies (2-16 goroutines, scenario x reduced configuration matrix) is judged by the race detector and by the same oracles (panic, hang = every unfinished goroutine blocked on a lock/channel in a goroutine dump, linearizability with a 2 s search limit, listing, final output); it is reported separately (race_pass_runs) and is sampling, not the deciding step",
 		Bound: func(tier string) map[string]any {
 			if tier == "thorough" {
-				return map[string]any{"preemption_bound": 6, "threads": "3-4 (+ goroutines spawned by AllKeysChan)", "execution_cap_per_scenario": 1500000}
+				return map[string]any{"preemption_bound": 6, "threads": "2-4 (+ goroutines spawned by AllKeysChan)", "scenarios": len(c08Scenarios), "configurations_per_scenario": "4; 7 for the 8 scenarios with colliding puts (S9: 3, S21: 2, stream: 3, identity: 7, MaxIndexCidSize: 5, read-only: 2)", "execution_cap_per_scenario": "400000 (S9: 1500000; S31: 250000; S32: 120000; informational: 50000)", "race_pass_runs_per_case": 400}
 			}
-			return map[string]any{"preemption_bound": 2, "threads": "3-4 (+ goroutines spawned by AllKeysChan)", "execution_cap_per_scenario": 250000}
+			return map[string]any{"preemption_bound": 2, "threads": "2-4 (+ goroutines spawned by AllKeysChan)", "scenarios": len(c08Scenarios), "configurations_per_scenario": "4 (S9: 3, S21: 2, stream: 3, identity: 4, MaxIndexCidSize: 3, read-only: 2 or 1)", "execution_cap_per_scenario": 250000, "race_pass_runs_per_case": 150}
 		},
-		Assumptions: []string{"scheduling points at lock acquisition, channel operations, goroutine start and explicit harness yields; unsynchronised accesses to memory that is not hooked are only seen by the -race complement", "Go memory model weak-memory effects below sync operations are not modelled", "2..16 goroutines are explored exhaustively only for 3-4 threads; more appear only in the sampling -race complement"},
-		Parallel:    0,
+		Assumptions: []string{"scheduling points at lock acquisition, channel operations, goroutine start and explicit harness yields (between the calls of one thread, before a cancellation); unsynchronised accesses to memory that is not hooked are only seen by the -race complement", "Go memory model weak-memory effects below sync operations are not modelled", "2..16 goroutines are explored exhaustively only for 2-4 threads; more appear only in the sampling -race complement",
+			"not specified, hence any result accepted: the result of a lifecycle call on an already closed store (the first one must succeed), Roots and identity-CID queries on a closed store, which prefix of a batch a failed PutMany stored, AllKeysChan on a closed ReadOnly",
+			"the hang verdict of the -race complement needs 60 s without progress AND a goroutine dump in which every unfinished body is blocked on a lock or channel; a slow machine alone is never a violation"},
+		Parallel: 0,
 	})
 }
